@@ -181,7 +181,160 @@ pub fn meta() -> CheckMeta {
         level: "exploration",
         rule: "function level: the real authenticate_client reading from a MemPipe in 5 fragmentation classes (whole, 1-byte drip, split after the hash, split inside the length, random with spurious Pending): all 256 single-bit flips of the right hash, single-byte deviations at every position (all 32x255 in the thorough tier), correct k-byte prefixes/suffixes for k=0..31, hashes of related passwords, all-zero/all-one => must be rejected; valid preambles with declared padding at the boundaries + 500 random lengths (thorough: all 65536) followed by a sentinel frame => Ok and the sentinel must be exactly what is left; every truncation length of valid preambles => not Ok and no hang after EOF. End to end (real Server::listen + TcpProxyHandler, raw TLS client): a bad preamble followed by a perfectly valid Settings+SYN+destination+data must cause no Dial event, no target accept and no plaintext reply; positive controls must get a session. distinct_nontrivial = distinct (preamble, fragmentation class).".into(),
         assumptions: vec!["SHA-256 from the sha2 crate is used independently to compute expected hashes".into()],
-        floors: vec![("wrong_hash_preambles", 1000), ("valid_preambles", 400), ("truncated_preambles", 300)],
+        floors: vec![("wrong_hash_preambles", 1000), ("valid_preambles", 400), ("truncated_preambles", 300), ("e2e_bad_preambles", 15), ("e2e_positive_controls", 4)],
         exhaustive: false,
     }
+}
+
+// ---------------------------------------------------------------------------
+// end to end: real Server::listen + default TcpProxyHandler, raw TLS client
+
+pub fn run_e2e(ctx: Ctx) -> Report {
+    use crate::netkit::{self, Target};
+    use crate::refcodec;
+    use anytls_rs::verif::Event;
+    use std::net::{Ipv4Addr, SocketAddr};
+    let quick = ctx.tier == crate::report::Tier::Quick;
+    let seed = ctx.seed;
+    run::case_begin("C06 e2e");
+    let mut rep = run::rt_block_on(8, async move {
+        let mut rep = Report::new("C06");
+        let Some((server_addr, _sh)) = netkit::start_server(netkit::PASSWORD, engine::default_padding()).await else {
+            rep.inconclusive("cannot start server");
+            return rep;
+        };
+        let Some(mut target) = Target::bind_v4(0).await else {
+            rep.inconclusive("cannot bind target");
+            return rep;
+        };
+        let tport = target.port;
+        let accepts = target.accepts.clone();
+        tokio::spawn(async move {
+            while let Some(a) = target.rx.recv().await {
+                netkit::spawn_echo(a.stream);
+            }
+        });
+        let right: [u8; 32] = Sha256::digest(netkit::PASSWORD.as_bytes()).into();
+        let mut rng = Rng::new(seed ^ 0xE06);
+        // (label, hash or None for truncation, cut of the preamble, good?)
+        let mut cases: Vec<(&'static str, Vec<u8>, bool)> = Vec::new();
+        let pre = |h: &[u8; 32], l: usize| {
+            let mut p = h.to_vec();
+            p.extend_from_slice(&(l as u16).to_be_bytes());
+            p.extend(std::iter::repeat_n(0u8, l));
+            p
+        };
+        let n_each = if quick { 6 } else { 80 };
+        for i in 0..n_each {
+            let mut h = right;
+            let bit = rng.below(256) as usize;
+            h[bit / 8] ^= 1 << (bit % 8);
+            cases.push(("single_bit_flip", pre(&h, rng.usize(0, 60)), false));
+            let mut h2 = right;
+            h2[31] = h2[31].wrapping_add(1 + (i as u8 % 200));
+            cases.push(("last_byte_differs", pre(&h2, 30), false));
+            let rel: [u8; 32] = Sha256::digest(format!("{}{}", netkit::PASSWORD, ["", " ", "x", "\n"][i % 4 + if i % 4 == 0 { 1 } else { 0 }.min(3)]).as_bytes()).into();
+            if rel != right {
+                cases.push(("hash_of_related_password", pre(&rel, 30), false));
+            }
+            let full = pre(&right, 40);
+            let cut = rng.usize(0, full.len() - 1);
+            cases.push(("truncated_valid_preamble", full[..cut].to_vec(), false));
+            cases.push(("valid", pre(&right, *rng.pick(&[0usize, 1, 30, 255, 256, 4000, 65535])), true));
+        }
+        let before = anytls_rs::verif::event_count();
+        let mut uniq = 0u32;
+        let results = std::sync::Arc::new(std::sync::Mutex::new(Vec::new()));
+        let mut set = tokio::task::JoinSet::new();
+        for (label, preamble, good) in cases {
+            uniq += 1;
+            let ip = Ipv4Addr::new(127, 44, (uniq >> 8) as u8, (uniq as u8).clamp(1, 254));
+            let server_addr = server_addr.clone();
+            let results = results.clone();
+            set.spawn(async move {
+                use tokio::io::{AsyncReadExt, AsyncWriteExt};
+                let r: Result<(Vec<u8>, bool), String> = async {
+                    let mut tls = netkit::raw_tls_connect(&server_addr).await?;
+                    // the preamble, then a perfectly valid session: Settings, SYN, destination, data
+                    let mut after = Vec::new();
+                    after.extend_from_slice(&refcodec::encode(refcodec::SETTINGS, 0, &engine::settings_payload("x")));
+                    after.extend_from_slice(&refcodec::encode(refcodec::SYN, 1, &[]));
+                    let mut dest = vec![1u8];
+                    dest.extend_from_slice(&ip.octets());
+                    dest.extend_from_slice(&tport.to_be_bytes());
+                    after.extend_from_slice(&refcodec::encode(refcodec::PSH, 1, &dest));
+                    after.extend_from_slice(&refcodec::encode(refcodec::PSH, 1, b"hello target"));
+                    tls.write_all(&preamble).await.map_err(|e| e.to_string())?;
+                    if label != "truncated_valid_preamble" {
+                        let _ = tls.write_all(&after).await;
+                    }
+                    let _ = tls.flush().await;
+                    if label == "truncated_valid_preamble" {
+                        let _ = tls.shutdown().await;
+                    }
+                    // whatever the server says in plaintext, and whether it closes
+                    let mut got = Vec::new();
+                    let mut buf = [0u8; 4096];
+                    let closed = tokio::time::timeout(Duration::from_secs(if good { 2 } else { 6 }), async {
+                        loop {
+                            match tls.read(&mut buf).await {
+                                Ok(0) | Err(_) => return true,
+                                Ok(n) => got.extend_from_slice(&buf[..n]),
+                            }
+                        }
+                    })
+                    .await
+                    .unwrap_or(false);
+                    Ok((got, closed))
+                }
+                .await;
+                results.lock().unwrap().push((label, good, ip, r));
+            });
+        }
+        while set.join_next().await.is_some() {}
+        tokio::time::sleep(Duration::from_millis(300)).await;
+        let events: Vec<Event> = anytls_rs::verif::events().into_iter().skip(before).collect();
+        let acc = accepts.lock().unwrap().clone();
+        let results = results.lock().unwrap().clone();
+        for (label, good, ip, r) in results {
+            let dest = SocketAddr::new(ip.into(), tport);
+            let case = json!({"kind": "c06-e2e", "preamble": label, "target": dest.to_string()});
+            rep.case(Some(hash_str(&case.to_string())));
+            rep.add("e2e_connections", 1);
+            let dialled = events.iter().any(|e| matches!(e, Event::Dial { addr, .. } if *addr == dest));
+            let decoded = events.iter().any(|e| matches!(e, Event::Destination { host, .. } if *host == ip.to_string()));
+            let accepted = acc.iter().any(|(a, _)| *a == dest);
+            match r {
+                Err(e) => rep.inconclusive(format!("{label}: {e}")),
+                Ok((got, closed)) => {
+                    if good {
+                        rep.add("e2e_positive_controls", 1);
+                        let (frames, _) = refcodec::parse_all(&got);
+                        if !dialled || !accepted || !frames.iter().any(|f| f.cmd == refcodec::SYNACK && f.sid == 1 && f.data.is_empty()) {
+                            rep.violate("auth", "e2e_valid_preamble", "right_password_got_no_session", format!("valid preamble: dialled={dialled} accepted={accepted} frames received: {:?}", frames.iter().map(|f| f.brief()).collect::<Vec<_>>()), case);
+                        }
+                    } else {
+                        rep.add("e2e_bad_preambles", 1);
+                        if dialled || accepted || decoded {
+                            rep.violate("auth", &format!("e2e_{label}"), "session_without_password", format!("a connection with a {label} preamble was treated as a session: destination decoded={decoded}, dialled={dialled}, target accepted={accepted}"), case.clone());
+                        }
+                        if !got.is_empty() {
+                            rep.violate("auth", &format!("e2e_{label}"), "protocol_reply_without_password", format!("the server answered {} plaintext bytes to a {label} preamble", got.len()), case.clone());
+                        }
+                        if !closed {
+                            rep.violate("auth", &format!("e2e_{label}"), "connection_left_open", format!("the server did not close the connection within 6 s after a {label} preamble"), case);
+                        }
+                    }
+                }
+            }
+        }
+        rep
+    });
+    for p in run::panic_log() {
+        if !run::is_harness_panic(&p) {
+            rep.violate("auth", "any", "panic", p, json!({}));
+        }
+    }
+    run::case_end();
+    rep
 }
